@@ -33,8 +33,8 @@ def run_c19(prop):
         raise vlib.ToolError("faithful sliding-count restore expected to violate Invisible: %s" % (r0.error or r0.violated))
     v.notes.append("MC CkptEquiv sliding count window (faithful restore zeroes the slide counter): Invisible violated (recorded finding)")
     v.checker_cmds.append("tlc CkptEquiv.tla")
-    r = tlc_cfg("_gen.cfg", "CONSTANTS MaxLen = %d Classes <- AllClasses\nINIT Init\nNEXT Next\nINVARIANT Emit\nCHECK_DEADLOCK FALSE\n" % (8 if quick else 11), "CkptCasesMC", "gen", workers=1, timeout=1800,
-                simulate=(400 if quick else 6000), depth=(9 if quick else 12), tlc_seed=vlib.seed())
+    r = tlc_cfg("_gen.cfg", "CONSTANTS MaxLen = %d Classes <- AllClasses\nINIT Init\nNEXT Next\nINVARIANT Emit\nCHECK_DEADLOCK FALSE\n" % (8 if quick else 10), "CkptCasesMC", "gen", workers=1, timeout=1800,
+                simulate=(400 if quick else 1500), depth=(9 if quick else 11), tlc_seed=vlib.seed())
     if r.error:
         raise vlib.ToolError("GEN: " + r.error + r.stdout[-1000:])
     cases = extract_cases(r.stdout)
@@ -49,7 +49,7 @@ def run_c19(prop):
     v.add_tlc(r, "GEN simulate: %d cases" % len(cases))
     cpath, rpath = os.path.join(w, "cases.ndjson"), os.path.join(w, "report.json")
     write_ndjson(cpath, cases)
-    run_harness("vh", ["ckequiv-replay", cpath, rpath], timeout=3000)
+    run_harness("vh", ["ckequiv-replay", cpath, rpath], timeout=7000)
     rep = load_report(rpath)
     v.add_report(rep)
     v.notes.append("%d streams, %d (stream, cut) pairs executed; per class: %s" % (rep["total"], rep["counters"].get("cuts", 0), {k[6:]: n for k, n in rep["counters"].items() if k.startswith("class_")}))
